@@ -37,11 +37,15 @@ type c02Cfg struct {
 	Next    bool     `json:"next_configured"`
 	Prev    bool     `json:"prev_configured"`
 	LongLbl bool     `json:"long_labels"`
+	MBLbl   bool     `json:"multibyte_labels,omitempty"`
 	Size    uint32   `json:"output_size"`
 	Mode    string   `json:"mode"`
 }
 
 func (g c02Cfg) labels() (nx, pv string) {
+	if g.MBLbl {
+		return "weiter \u2192\u2192", "zur\u00fcck \u2190" // 13 and 10 bytes, 9 and 8 characters
+	}
 	if g.LongLbl {
 		return "nextpage", "prevpage"
 	}
@@ -82,6 +86,25 @@ func (g c02Cfg) cannotFit(rest []string) bool {
 		add("11:" + nx)
 	}
 	return n > int(g.Size)
+}
+
+// page0Reserved narrows the open finding "follow-up page cannot fit" to the situation in which it
+// exists on the repaired tree: page 0 was entitled to render, i.e. its first row fitted next to the
+// static parts with the "next" entry reserved (byte lengths) and the renderer's two bytes of slack.
+// A page 0 that rendered with less room than that was under-reserved - a different defect, which
+// must not hide behind the finding.
+func (g c02Cfg) page0Reserved() bool {
+	pre, post := g.prePost()
+	n := len(pre) + len(post)
+	for _, l := range g.ordinary() {
+		n += 1 + len(l)
+	}
+	next := 0
+	if g.Next && len(g.Rows) > 1 {
+		nx, _ := g.labels()
+		next = len("11:"+nx) + 1
+	}
+	return int(g.Size)-n >= len(g.Rows[0])+next+2
 }
 
 func (g c02Cfg) ordinary() []string {
@@ -280,7 +303,7 @@ func c02Walk(g c02Cfg, vis func(pages int, vacuous bool)) (sig, msg string, reqs
 				for _, q := range pages {
 					shown += strings.Count(q.region, "\n") + 1
 				}
-				if shown < len(g.Rows) && g.cannotFit(g.Rows[shown:]) {
+				if shown < len(g.Rows) && g.cannotFit(g.Rows[shown:]) && g.page0Reserved() {
 					return "follow-up-page-cannot-fit", fmt.Sprintf("page %d fails to render (%s): its first row %q cannot fit next to the static parts and the lateral entries that page needs within %d bytes, but page 0 was rendered (next offered on page %d: %v)", i, r.FlushErr, g.Rows[shown], g.Size, i-1, pages[i-1].hasNext), reqs
 				}
 			}
@@ -499,10 +522,13 @@ func c02Run(c *mc.Ctx) {
 							}
 							for _, mode := range modes {
 								g := c02Cfg{Rows: rows, Tpl: tpl, Menu: mn, MSink: f.msink, Next: b&1 != 0, Prev: b&2 != 0, LongLbl: long, Mode: mode}
+								if long && b == 3 && mn == 1 {
+									g.LongLbl, g.MBLbl = false, true // this slot of the family uses labels with multi-byte characters
+								}
 								tot := g.total()
 								for sz := 1; sz <= tot+3; sz++ {
 									g.Size = uint32(sz)
-									key := fmt.Sprintf("%v|%d|%d|%v|%d|%v|%d", rows, tpl, mn, f.msink, b, long, sz)
+									key := fmt.Sprintf("%v|%d|%d|%v|%d|%v%v|%d", rows, tpl, mn, f.msink, b, g.LongLbl, g.MBLbl, sz)
 									sig, msg, reqs := c02Walk(g, func(pages int, vac bool) {
 										if vac {
 											c.Count("walks_page0_fails_vacuous", 1)
